@@ -19,6 +19,23 @@ REORDERING = [(0x0900, 0x0DFF), (0x1000, 0x109F), (0xAA60, 0xAA7F), (0xA9E0, 0xA
 OPPOSITE = {"rtl": "ltr", "ltr": "rtl", "btt": "ttb", "ttb": "btt"}
 
 
+def indic_dependent(c):
+    """dependent sign of one of the nine Indic blocks (signs, nukta, matras, virama, length marks)"""
+    if not (0x0900 <= c <= 0x0DFF):
+        return False
+    o = c & 0x7F
+    return o <= 0x03 or 0x3A <= o <= 0x4F or 0x55 <= o <= 0x57 or 0x62 <= o <= 0x63
+
+
+def indic_orphan_sign(cps):
+    """the text has an Indic dependent sign with no Indic character before it (text start or after a
+    character outside the Indic blocks): a broken cluster for the Indic syllable machine"""
+    for i, c in enumerate(cps):
+        if indic_dependent(c) and (i == 0 or not (0x0900 <= cps[i - 1] <= 0x0DFF)):
+            return True
+    return False
+
+
 def known_class(f, binp=None):
     """class name of a failure that is a listed known finding, else None.  Classes are decided on the input."""
     cps = e2e.req_text(f["req"])
@@ -26,6 +43,8 @@ def known_class(f, binp=None):
         return None
     if 0x200C in cps and any(lo <= c <= hi for c in cps for lo, hi in INDIC):
         return "indic_zwnj_cluster_split"
+    if indic_orphan_sign(cps):
+        return "indic_orphan_matra_reordering"
     d = e2e.req_field(f["req"], "dir")
     if d in OPPOSITE and any(lo <= c <= hi for c in cps for lo, hi in REORDERING) and binp:
         # forced against the native direction: the same request in the opposite direction must pass
